@@ -108,6 +108,8 @@ def run(ctx):
         conts = [('raw-sample', raw)]
         if raw.shape[0] >= 4 and rng.random() < 0.3:
             conts.append(('derived-sample', zoo.derive(rng, raw, min_events=2)[0]))     # sliced / copied / pickled / rearranged
+        if raw.shape[0] >= 2 and rng.random() < 0.2:
+            conts.append(('arith-sample', zoo.arith(rng, raw)[0]))      # values that went through arithmetic before (fractional values)
         if raw.shape[1] >= 2 and rng.random() < 0.35:
             # restored from a pickle with its columns in another arrangement than the samples restored before it in this
             # process (a name must be resolved against THIS sample's columns)
